@@ -14,6 +14,6 @@ git diff > /tmp/seedtmp/p.diff; git apply -R /tmp/seedtmp/p.diff
 go test -vet=off -count=1 ./$pkg/ > /tmp/seedtmp/demo_without.txt 2>&1; rc_without=$?
 git apply /tmp/seedtmp/p.diff
 echo "suite with change:"; cat /tmp/seedtmp/with.txt | tr '\n' ';' | cut -c1-600; echo
-echo "demo with change rc=$rc_with (expect != 0; TestCDecodeError alone does not count)"; grep -E "^--- FAIL" /tmp/seedtmp/demo_with.txt | head -5
-echo "demo without change rc=$rc_without"; grep -E "^--- FAIL" /tmp/seedtmp/demo_without.txt | head -5
+echo "demo with change rc=$rc_with (expect != 0; TestCDecodeError alone does not count)"; grep -aE "^--- FAIL" /tmp/seedtmp/demo_with.txt | head -5
+echo "demo without change rc=$rc_without"; grep -aE "^--- FAIL" /tmp/seedtmp/demo_without.txt | head -5
 rm -rf /tmp/seedtmp
